@@ -13,11 +13,14 @@ use crate::linter::LinterContext;
 use crate::rules;
 use deno_ast::swc::ast::Expr;
 use deno_ast::swc::common::comments::Comment;
+use deno_ast::swc::common::errors::{Handler, HANDLER};
 use deno_ast::swc::common::util::take::Take;
 use deno_ast::swc::common::{SourceMap, SyntaxContext};
+use deno_ast::swc::parser::token::Token;
 use deno_ast::SourceTextInfo;
 use deno_ast::{
   view as ast_view, ParsedSource, RootNode, SourcePos, SourceRange,
+  SourceRangedForSpanned,
 };
 use deno_ast::{MediaType, ModuleSpecifier};
 use deno_ast::{MultiThreadedComments, Scope};
@@ -65,18 +68,41 @@ impl<'a> Context<'a> {
     parsed_source.globals().with(|marks| {
       let top_level_mark = marks.top_level;
 
-      if let Some(leading_comments) = parsed_source.get_leading_comments() {
+      // The comments in front of the first token (the first item's own start
+      // lies behind decorators that precede `export`).
+      let leading_comments = match program
+        .maybe_token_container()
+        .and_then(|tokens| {
+          tokens
+            .tokens
+            .iter()
+            .find(|token| !matches!(token.token, Token::Shebang(_)))
+        }) {
+        Some(token) => parsed_source.comments().get_leading(token.start()),
+        None => parsed_source.get_leading_comments(),
+      };
+      if let Some(leading_comments) = leading_comments {
+        // SWC reports an unknown `@jsxRuntime` value through its error handler
+        // and panics on a pragma that is not an expression (`@jsx a..b`):
+        // neither may take the linter down, such a pragma is ignored.
+        let handler = Handler::with_emitter_writer(Box::new(std::io::sink()), None);
         let jsx_directives =
-          deno_ast::swc::transforms::react::JsxDirectives::from_comments(
-            &SourceMap::default(),
-            #[allow(clippy::disallowed_types)]
-            deno_ast::swc::common::Span::dummy(),
-            leading_comments,
-            top_level_mark,
-          );
+          std::panic::catch_unwind(std::panic::AssertUnwindSafe(|| {
+            HANDLER.set(&handler, || {
+              deno_ast::swc::transforms::react::JsxDirectives::from_comments(
+                &SourceMap::default(),
+                #[allow(clippy::disallowed_types)]
+                deno_ast::swc::common::Span::dummy(),
+                leading_comments,
+                top_level_mark,
+              )
+            })
+          }));
 
-        jsx_factory = jsx_directives.pragma;
-        jsx_fragment_factory = jsx_directives.pragma_frag;
+        if let Ok(jsx_directives) = jsx_directives {
+          jsx_factory = jsx_directives.pragma;
+          jsx_fragment_factory = jsx_directives.pragma_frag;
+        }
       }
 
       if jsx_factory.is_none() {
